@@ -110,7 +110,24 @@ var (
 	hostileRunes = []rune{'/', '.', ' ', '#', ':', '\n', '\t', '-', 'a', 'b', 'x', '\'', '"', '\\', '\u2215', '\u00e9', '~', '!', '&', '*', '%', '\r', '\u00a0', '\x00', '\x7f', '|', '>', ',', '\u0301', '\ufeff'}
 )
 
+// knownSlash is the id under which the '/' defect would be listed if the proposed fix were not applied
+// (NOTES.md): names with a '/' are then kept out of the random search and counted
+const knownSlash = "C08-slash-in-label-name"
+
+func excludeKnown(name string) string {
+	if strings.Contains(name, "/") && hx.Known(knownSlash) {
+		stats.Count("excluded_"+knownSlash, 1)
+		return strings.ReplaceAll(name, "/", "-")
+	}
+	return name
+}
+
 func drawName(t *rapid.T, label string) (string, string) {
+	n, c := drawRawName(t, label)
+	return excludeKnown(n), c
+}
+
+func drawRawName(t *rapid.T, label string) (string, string) {
 	switch w := rapid.IntRange(0, 11).Draw(t, label+"_class"); {
 	case w <= 2:
 		return rapid.SampledFrom(asciiPool).Draw(t, label), "ascii"
@@ -135,6 +152,11 @@ func drawName(t *rapid.T, label string) (string, string) {
 func nameClass(name, drawn string) string {
 	if documented(name) {
 		if drawn == "hostile" || drawn == "any" {
+			for _, c := range name {
+				if c >= 0x80 {
+					return "unicode"
+				}
+			}
 			return "ascii"
 		}
 		return drawn
@@ -812,16 +834,14 @@ type failer interface {
 	Fatalf(string, ...interface{})
 }
 
-func check(t failer, c caseT, limit time.Duration) *runT {
+// try executes one case under the watchdog
+func try(c caseT, limit time.Duration) (*runT, error) {
 	hx.Journal(c)
 	var r *runT
 	t0 := time.Now() // statistics only, never an oracle
 	defer func() {
 		if d := time.Since(t0); d > 2*time.Second {
 			stats.Count("cases_slower_than_2s", 1)
-			if os.Getenv("C08_DEBUG") != "" {
-				fmt.Fprintf(os.Stderr, "slow case: %s\n", d)
-			}
 		}
 	}()
 	err, hung, panicked := hx.Guard(limit, func() error {
@@ -830,8 +850,16 @@ func check(t failer, c caseT, limit time.Duration) *runT {
 		return e
 	})
 	if hung || panicked || err != nil {
-		stats.Violation(fmt.Sprintf("%v", err))
-		t.Fatalf("%v (hung=%v panicked=%v)", err, hung, panicked)
+		return r, fmt.Errorf("%v (hung=%v panicked=%v)", err, hung, panicked)
+	}
+	return r, nil
+}
+
+func check(t failer, c caseT, limit time.Duration) *runT {
+	r, err := try(c, limit)
+	if err != nil {
+		stats.Violation(err.Error())
+		t.Fatalf("%v", err)
 	}
 	return r
 }
